@@ -342,5 +342,5 @@ def make_spec(key):
 def run(ctx):
     for role in ("server", "client"):
         for big in (False, True):
-            ctx.explore(("c03", role, big, ctx.tier), time_budget=None if ctx.tier == "quick" else 420)
+            ctx.explore(("c03", role, big, ctx.tier), time_budget=None if ctx.tier == "quick" else 240)
     ctx.explore(("c03", "server-upgraded", False, ctx.tier), time_budget=None if ctx.tier == "quick" else 200)
